@@ -110,6 +110,11 @@ def gather():
 
     ar = strip_tests(read("src/bin/copia/archive.rs"))
     c["ARCHIVE_FORMAT_VERSION"] = lit(find(ar, r"const FORMAT_VERSION\s*:\s*u\d+\s*=\s*([^;]+);", "archive::FORMAT_VERSION"))
+
+    # C20: the CLI's own validate_block_size (applied to block sizes read from signature/delta files)
+    mn = strip_tests(read("src/bin/copia/main.rs"))
+    lo4, hi4 = bs_bounds(find(mn, r"fn validate_block_size\(size: usize\).*?\n\}", "cli validate_block_size", 0), "cli validate_block_size bounds")
+    c["BS_MIN_CLI"], c["BS_MAX_CLI"] = lo4, hi4
     return c
 
 
